@@ -14,10 +14,6 @@ package verifspec
 //@   param gls entries
 //@   ghost glsAdded = glsAdded + 1
 
-//@ extern compiler/linkname.GoLinknameSet.IsImplementation
-//@   param gls sym
-//@   assigns nothing
-
 //@ extern compiler/internal/dce.Selector.Include
 //@   param s decl implementsLink
 
@@ -57,6 +53,8 @@ package verifspec
 //@   loop 3 invariant glsAdded == len(pkgs)
 //@   oncall IsImplementation: assert glsAdded == len(pkgs)
 //@   oncall Include: assert glsAdded == len(pkgs)
+//@   oncall Include: assert a1 == has(gls.byImplementation, a0.LinkingName)
+//@   oncall Add: assert samearr(a0, pkgs[glsAdded].GoLinknames) && len(a0) == len(pkgs[glsAdded].GoLinknames)
 //@   loop 4 invariant log == chain(chain(0, str("\"use strict\";\n(function() {\n\n")), str("var $goVersion = %q;\n")) && nw == 0
 //@   loop 5 invariant log == chain(chain(chain(0, str("\"use strict\";\n(function() {\n\n")), str("var $goVersion = %q;\n")), str("\n")) && nw == $i5 && 0 <= $i5 && $i5 <= len(pkgs)
 //@   oncall WritePkgCode: assert a0 == pkgs[nw]
